@@ -173,6 +173,16 @@ def parse_file(path):
                 funcs[f.name] = f
             i = j + 1
             continue
+        if ln.startswith('const ') and ln.endswith(';') and ' = const ' in ln:
+            body = ln[6:-1]
+            k = top_find(body, ': ', angle=True)
+            e = body.rfind(' = const ')
+            if k > 0 and e > k:
+                name = body[:k]
+                f = Func(name, [], body[k + 2:e], {0: body[k + 2:e]}, {0: ['_0 = const %s;' % body[e + 9:], 'return;']}, 'const')
+                funcs[name] = f
+            i += 1
+            continue
         m = re.match(r'(alloc\d+) \(static: ([^,)]+)', ln)
         if m:
             statics[m.group(1)] = m.group(2).strip()
